@@ -186,6 +186,54 @@ fn c15_s1_collect_across() {
     std::mem::forget(second);
 }
 
+/// S1c: the same bookkeeping in the REAL collect_type_dec (type declarations), where identifiers are
+/// additionally classified as TYPE: one token per declaration, two consecutive declarations.
+/// (The declaring occurrence / `declaration` modifier needs `name: Some(Identifier)`, whose
+/// comparison mixes token-index and byte ranges - outside the claimed clauses, see DESIGN.)
+fn typedec_kind(k: u8) -> (TokenType, u8) {
+    // 0 = nothing, 1 = lexical class, 2 = identifier -> type
+    match k % 5 {
+        0 => (TokenType::Type, 1),
+        1 => (TokenType::Int(IntResult::Int(1)), 1),
+        2 => (TokenType::Comment(String::new()), 1),
+        3 => (TokenType::Ident(String::new()), 2),
+        _ => (TokenType::Semic, 0),
+    }
+}
+
+fn legend_is_type(idx: u32) -> bool {
+    (idx as usize) < TOKEN_TYPES.len() && TOKEN_TYPES[idx as usize] == lsp_types::SemanticTokenType::TYPE
+}
+
+#[kani::proof]
+#[kani::unwind(16)]
+fn c15_s1_typedec_across() {
+    let text = TEXT;
+    let k: [u8; 2] = kani::any();
+    let r: [usize; 4] = kani::any();
+    kani::assume(r[0] < r[1] && r[1] <= r[2] && r[2] < r[3] && r[3] <= text.len());
+    kani::assume(is_boundary(r[0], text) && is_boundary(r[1], text) && is_boundary(r[2], text) && is_boundary(r[3], text));
+    let (t0, c0) = typedec_kind(k[0]);
+    let (t1, c1) = typedec_kind(k[1]);
+    let toks = std::mem::ManuallyDrop::new([Token::new(t0, r[0]..r[1]), Token::new(t1, r[2]..r[3])]);
+    let td0 = std::mem::ManuallyDrop::new(TypeDeclaration { doc: Vec::new(), name: None, type_expr: None, info: AstInfo::new(0..1) });
+    let td1 = std::mem::ManuallyDrop::new(TypeDeclaration { doc: Vec::new(), name: None, type_expr: None, info: AstInfo::new(0..1) });
+    kani::cover!(c0 == 2 && c1 == 2 && r[2] >= 7, "identifiers in two type declarations on different lines");
+    kani::cover!(c0 == 0 && c1 == 1, "unclassified token, then a keyword in the next declaration");
+    let mut prev = Position { line: 0, character: 0 };
+    let first = collect_type_dec(&td0, text, &toks[..], &mut prev);
+    let second = collect_type_dec(&td1, text, &toks[1..], &mut prev);
+    check_stream(&first, &second, [c0 != 0, c1 != 0], r);
+    if c0 == 2 {
+        assert!(first.len() == 1 && legend_is_type(first[0].token_type) && first[0].token_modifiers_bitset == 0, "C15 identifier in a type declaration is a type");
+    }
+    if c1 == 2 {
+        assert!(second.len() == 1 && legend_is_type(second[0].token_type) && second[0].token_modifiers_bitset == 0, "C15 identifier in a type declaration is a type");
+    }
+    std::mem::forget(first);
+    std::mem::forget(second);
+}
+
 /// S3 for every token kind of the real TokenType (one token, ASCII text)
 #[kani::proof]
 #[kani::unwind(12)]
